@@ -42,5 +42,7 @@ def check(m, run):
     run.floor('SS1.reads-follow-the-working-copy', 2, 'rows and slabs')
     from . import c03 as _c03
     _c03.tol2(m, run)
+    from .. import skel_drivers as _sdk
+    _sdk.kd5(m, run)       # the per-row helpers dispatch on isinstance(point[0], float): the setters store floats
 
 
